@@ -27,12 +27,17 @@ class LspServer:
         self.name = name
         self.errf = tempfile.NamedTemporaryFile(prefix=f"{name}-", suffix=".stderr", dir=workdir, delete=False)
         e = dict(os.environ)
-        e.setdefault("RUST_BACKTRACE", "0")
+        e["RUST_BACKTRACE"] = "0"      # a backtrace of the debug binary takes seconds to print
         e["RUST_LOG"] = "off"
         if env:
             e.update(env)
-        self.p = subprocess.Popen([str(binary)], stdin=subprocess.PIPE, stdout=subprocess.PIPE,
-                                  stderr=self.errf, env=e, cwd=workdir)
+        try:
+            self.p = subprocess.Popen([str(binary)], stdin=subprocess.PIPE, stdout=subprocess.PIPE,
+                                      stderr=self.errf, env=e, cwd=workdir)
+        except OSError:
+            self.errf.close()
+            os.unlink(self.errf.name)
+            raise
         self.next_id = 0
         self.responses = {}
         self.cv = threading.Condition()
@@ -125,15 +130,18 @@ class LspServer:
         return rid
 
     def wait(self, rid, timeout=60):
-        end = time.time() + timeout
+        start = time.time()
+        end = start + timeout
         with self.cv:
             while rid not in self.responses:
                 if self.eof:
                     raise ServerDied(f"server closed its output (exit code {self.p.poll()}); stderr: {self.stderr_tail()}")
                 left = end - time.time()
+                # a handler panic unwinds the server's main task, but the process lingers until its
+                # stdin reader returns: the panic message on stderr is the evidence
+                if (left <= 0 or time.time() - start > 0.4) and self.panicked():
+                    raise ServerDied(f"server panicked and does not answer; stderr: {self.stderr_tail()}")
                 if left <= 0:
-                    if self.panicked():
-                        raise ServerDied(f"server panicked and does not answer; stderr: {self.stderr_tail()}")
                     raise ServerTimeout(f"no response to request {rid} within {timeout}s")
                 self.cv.wait(min(left, 0.5))
             return self.responses.pop(rid)
@@ -142,14 +150,19 @@ class LspServer:
         return self.wait(self.send_request(method, params), timeout)
 
     def stderr_tail(self, n=600):
+        """The panic message if there is one, else the last bytes of stderr."""
         try:
             with open(self.errf.name, "rb") as f:
-                return f.read()[-n:].decode("utf-8", "replace").strip()
+                data = f.read().decode("utf-8", "replace")
         except OSError:
             return ""
+        k = data.find("panicked at")
+        if k >= 0:
+            return data[data.rfind("\n", 0, k) + 1:k + n].strip()
+        return data[-n:].strip()
 
     def panicked(self):
-        return "panicked at" in self.stderr_tail(4000)
+        return "panicked at" in self.stderr_tail()
 
     def alive(self):
         return self.p.poll() is None and not self.eof
